@@ -200,7 +200,34 @@ def value_form(stmts):
     e = _value_expr(stmts[i:], lifted)
     if e is None:
         return None
-    return prefix + lifted, e, pure
+    # single-assignment locals with a pure initialiser are folded into the expression (a helper's `T* p = &arg;`)
+    e = copy.deepcopy(e)
+    keep = []
+    pending = list(prefix)
+    while pending:
+        s0 = pending.pop(0)
+        vs = s0.get('vars', []) if s0.get('k') == 'decl' else None
+        if vs and len(vs) == 1 and 'init' in vs[0] and is_pure(vs[0]['init']) and not vs[0].get('isref'):
+            key = (vs[0].get('name'), vs[0].get('dl'))
+            rest = pending + lifted + [e]
+            written = any(_writes_local(x, key) for r_ in rest for x in walk(r_))
+            captured = any(x.get('k') == 'lambda' and any(c.get('name') == key[0] for c in x.get('caps', [])) for r_ in rest for x in walk(r_))
+            if not written and not captured:
+                holder = {'k': 'block', 'body': rest}
+                # refs that come out of a former closure body may carry no declaration position: match them by name
+                for x in walk(holder):
+                    if x.get('k') == 'ref' and x.get('dk') in ('local', 'parm') and x.get('name') == key[0] and x.get('dl') != key[1] \
+                            and x.get('idx') is None:
+                        x['dl'] = key[1]
+                        x['dk'] = 'local'
+                _replace_refs(holder, key, vs[0]['init'])
+                pending = holder['body'][:len(pending)]
+                lifted = holder['body'][len(pending):-1]
+                e = holder['body'][-1]
+                continue
+        keep.append(s0)
+    pure = pure and True
+    return keep + lifted, e, pure
 
 
 def _value_expr(stmts, lifted=None, guards=()):
@@ -288,8 +315,15 @@ class Helper:
             return
         st = body.get('body', [])
         self.uses, self.written = _parm_uses(body, self.nparams)
-        if any(n.get('k') in ('lambda', 'try') or (n.get('k') == 'var' and n.get('static')) for n in walk(body)):
+        self.returns_closure = False
+        if any(n.get('k') == 'try' or (n.get('k') == 'var' and n.get('static')) for n in walk(body)):
             return
+        lambdas = [n for n in walk(body) if n.get('k') == 'lambda']
+        if lambdas:
+            # a factory: `return <expression containing lambdas>;` and nothing else - its closures are specialised per call
+            if not (len(st) == 1 and st[0].get('k') == 'return' and st[0].get('e') is not None):
+                return
+            self.returns_closure = True
         if f.get('ret') == 'void':
             self.void = structure_void(st)
         else:
@@ -346,8 +380,10 @@ class Inliner:
             obj = call.get('obj')
             if obj is None:
                 return None
-            t = str(obj.get('t', ''))
-            ptr = t.rstrip().endswith('*') or obj.get('k') == 'this' or (obj.get('k') == 'opcall' and obj.get('op') == '->')
+            t = str(obj.get('t', '')).rstrip()
+            while t.endswith('const'):
+                t = t[:-5].rstrip()
+            ptr = t.endswith('*') or obj.get('k') == 'this' or (obj.get('k') == 'opcall' and obj.get('op') == '->')
             if not is_pure(obj):
                 return None
             this_obj = (obj, ptr)
@@ -368,7 +404,61 @@ class Inliner:
         if not pure and not whole:
             return None
         pre = decls + [subst(s, parm_map, this_obj, lm, tag) for s in prefix]
-        return pre, subst(e, parm_map, this_obj, lm, tag)
+        ex = subst(e, parm_map, this_obj, lm, tag)
+        if h.returns_closure:
+            if decls or not self._specialise_closures(ex, h, parm_map, call):
+                return None
+        return pre, ex
+
+    def _specialise_closures(self, ex, h, parm_map, call):
+        """the closures returned by a factory capture its parameters; give each call site its own copy of the closure's
+           function fact in which those captures are the call's arguments (which must be pure lvalues / values)"""
+        pnames = {p.get('name'): i for i, p in enumerate(h.f.get('params', [])) if p.get('name')}
+        for n in walk(ex):
+            if n.get('k') != 'lambda':
+                continue
+            lam = self.F.get(n.get('fn'))
+            if lam is None:
+                return False
+            caps = [c for c in n.get('caps', [])]
+            capt = {c.get('name') for c in caps if c.get('name') in pnames}
+            if any(c.get('this') for c in caps):
+                return False
+            for nm in capt:
+                if not is_pure(parm_map[pnames[nm]]):
+                    return False
+            self.counter += 1
+            host = getattr(self, 'cur', None)
+            host_id = (host or {}).get('id', '').split('::<lambda@', 1)[0] or n['fn']
+            new_id = '%s::<lambda@%s:%d>' % (host_id, call.get('l', 0), 900000 + self.counter)
+            clone = copy.deepcopy(lam)
+            clone['id'] = new_id
+            own = {p.get('name') for p in lam.get('params', []) if p.get('name')}
+
+            def rw(x):
+                if isinstance(x, list):
+                    return [rw(y) for y in x]
+                if not isinstance(x, dict):
+                    return x
+                if x.get('k') == 'ref' and x.get('dk') in ('parm', 'local') and x.get('name') in capt and x.get('name') not in own:
+                    return copy.deepcopy(parm_map[pnames[x['name']]])
+                return {kk: (rw(vv) if isinstance(vv, (dict, list)) and kk not in ('owner', 'fta', 'ta', 'elem_of') else vv) for kk, vv in x.items()}
+            clone['body'] = rw(clone.get('body'))
+            clone['specialised_from'] = n['fn']
+            self.F[new_id] = clone
+            # captures: the factory's parameters are replaced by what the arguments mention
+            newcaps = [c for c in caps if c.get('name') not in capt]
+            seen = {c.get('name') for c in newcaps}
+            for nm in capt:
+                for y in walk(parm_map[pnames[nm]]):
+                    if y.get('k') == 'ref' and y.get('dk') in ('local', 'parm', 'binding') and y.get('name') not in seen:
+                        seen.add(y['name'])
+                        byref = any(c.get('name') == nm and c.get('byref') for c in caps) and y.get('dk') == 'parm'
+                        newcaps.append({'name': y['name'], 'byref': bool(byref), 't': y.get('t'), 'dl': y.get('dl')})
+            n['caps'] = newcaps
+            n['fn'] = new_id
+            self.new_functions = getattr(self, 'new_functions', 0) + 1
+        return True
 
     def stmt_replacement(self, call):
         h = self.H.get(call.get('fn'))
@@ -383,6 +473,7 @@ class Inliner:
     # ---- walking a function body
     def run(self, f):
         body = f.get('body')
+        self.cur = f
         if isinstance(body, dict):
             self._block_like(body, f)
 
@@ -967,7 +1058,10 @@ def forwarding_lambdas_to_bind(facts):
                 if obj is None or not is_pure(obj) or any(is_own(x) for x in walk(obj)):
                     continue
                 o2 = _strip(obj)
-                ptr = str(o2.get('t', '')).rstrip().endswith('*') or o2.get('k') == 'this'
+                tt_ = str(o2.get('t', '')).rstrip()
+                while tt_.endswith('const') or tt_.endswith('volatile'):
+                    tt_ = tt_[:-5].rstrip() if tt_.endswith('const') else tt_[:-8].rstrip()
+                ptr = tt_.endswith('*') or o2.get('k') == 'this'
                 bind_args.append(copy.deepcopy(obj) if ptr else {'l': c.get('l'), 't': '%s *' % o2.get('t'), 'k': 'un', 'op': '&', 'e': copy.deepcopy(obj)})
             elif obj is not None:
                 continue
@@ -1059,7 +1153,7 @@ def normalize(facts):
             if not helpers:
                 break
             inl = Inliner(F, helpers)
-            for fid, f in F.items():
+            for fid, f in list(F.items()):
                 inl.run(f)
             if not inl.changed:
                 break
